@@ -49,6 +49,7 @@ def run_shard(rep):
     cfg = META['tiers'][rep.tier]
     rep.require('near_miss_pairs', 1000)
     rep.require('keys_recorded', 2000)
+    rep.require('mainscript_worker_key_reports', 20)
     ledger = {}      # identity json -> key
     rev = {}         # key -> identity json
     store = LocalStorage(tempfile.mkdtemp(prefix='vlab-c07-'))
@@ -82,6 +83,11 @@ def run_shard(rep):
             rep.seen('shared_digest', f'{i // 50}:' + hashlib.sha1('\n'.join(chunk).encode()).hexdigest()[:12])
             chunk = []
     rep.count('shared_keys_computed', len(sl))
+
+    # task types defined in the running script: the key a worker (fork: __main__, spawn: __mp_main__) sees for a
+    # task and its nested tasks must be the caller's
+    for r in range(1 if rep.tier == 'quick' else 4):
+        mainscript_case(rep, ['serial', 'fork', 'spawn'][(rep.shard + r) % 3], rep.seed * 1000 + rep.shard * 10 + r)
 
     j = rep.shard
     while j < cfg['n_base'] and not rep.expired():
@@ -161,6 +167,29 @@ def run_shard(rep):
     shutil.rmtree(str(store._storage_path), ignore_errors=True)
 
 
+def mainscript_case(rep, backend, seed):
+    import hashlib
+    import json
+    from vlab.mainscript_run import run_mainscript
+    wit = {'mainscript': [backend, seed]}
+    st, x = run_mainscript(backend, seed, hashseed=seed % 1000)
+    if st == 'timeout':
+        rep.inconclusive(f'main-script tasks ({backend}, seed {seed}): timed out', wit)
+        return
+    if st == 'failed':
+        rep.violation('script-tasks-run-failed', f'main-script tasks ({backend}): the script failed: {x}', wit)
+        return
+    rep.count('mainscript_runs')
+    rep.count('mainscript_worker_key_reports', x['obs']['worker_seen'])
+    rep.seen('mainscript_backends', backend)
+    rep.seen('mainscript_parent_keys', hashlib.sha1(json.dumps(x['obs']['parent_keys'], sort_keys=True).encode()).hexdigest()[:12])
+    rep.case(['mainscript', backend, seed], x['obs']['worker_seen'] >= 2)
+    for key, msg in x['bad']:
+        if key == 'worker-key-differs':
+            rep.violation('key-differs-in-worker', f'task types defined in the main script: {msg}', wit)
+            break
+
+
 def post_merge(m):
     """Cross-shard: every chunk of the shared construction list must have one digest."""
     by = {}
@@ -172,6 +201,10 @@ def post_merge(m):
         if len(ds) > 1:
             out.append(('key-differs-across-processes', f'chunk {i} of the shared construction list produced '
                         f'{len(ds)} different key digests across interpreters/hash seeds', {'chunk': int(i)}))
+    pk = m['sets'].get('mainscript_parent_keys', ())
+    if len(pk) > 1:
+        out.append(('key-differs-across-processes', f'the tasks built by vlab/mainscript.py got {len(pk)} different '
+                    f'key sets across interpreters/hash seeds', {'chunk': -1}))
     m['counters']['shared_chunks_compared'] = len(by)
     return out[:3]
 
@@ -180,6 +213,9 @@ def replay(rep, wit):
     w = wit['witness']
     rep.case('replay-a', True)
     rep.case('replay-b', True)
+    if 'mainscript' in w:
+        mainscript_case(rep, *w['mainscript'])
+        return
     if 'chunk' in w:
         rep.inconclusive('cross-process witness: rerun the check')
         return
